@@ -270,6 +270,60 @@ theorem firstT_mem : ∀ (as : List Term) (p : List Nat) (x : Term), firstT as =
     · obtain ⟨an, hm⟩ := ih p x h
       exact ⟨an, List.mem_cons_of_mem _ hm⟩
 
+theorem splitMain_spec : ∀ (l pre post : List Term) (m : Term),
+    splitMain l = some (pre, m, post) →
+      l = pre ++ [m] ++ post ∧ (∀ c ∈ pre, isScalar0 c = true) ∧ (∀ c ∈ post, isScalar0 c = true) := by
+  intro l
+  induction l with
+  | nil => intro pre post m h; simp [splitMain] at h
+  | cons a rest ih =>
+    intro pre post m h
+    simp only [splitMain] at h
+    split at h
+    · rename_i ha
+      split at h
+      · rename_i pre' m' post' hrec
+        simp only [Option.some.injEq, Prod.mk.injEq] at h
+        obtain ⟨rfl, rfl, rfl⟩ := h
+        obtain ⟨e, h1, h2⟩ := ih pre' post' m' hrec
+        refine ⟨by simp [e], ?_, h2⟩
+        intro c hc
+        rcases List.mem_cons.1 hc with rfl | hc
+        · exact ha
+        · exact h1 c hc
+      · simp at h
+    · split at h
+      · rename_i hall
+        simp only [Option.some.injEq, Prod.mk.injEq] at h
+        obtain ⟨rfl, rfl, rfl⟩ := h
+        exact ⟨by simp, by simp, by simpa [List.all_eq_true] using hall⟩
+      · simp at h
+
+theorem eval_scalars0 : ∀ (cs : List Term), (∀ c ∈ cs, isScalar0 c = true) →
+    (∀ c ∈ cs, AnnotSound I ρ c) →
+    (∀ t ∈ eval I ρ (ofList cs), Scalar0 t) := by
+  intro cs
+  induction cs with
+  | nil => intro _ _ t ht; simp [ofList, eval] at ht
+  | cons c cs ih =>
+    intro h1 h2 t ht
+    have hc := h1 c (List.mem_cons_self ..)
+    have hsc := h2 c (List.mem_cons_self ..)
+    cases c with
+    | leaf id ann sc =>
+      cases sc with
+      | false => simp [isScalar0] at hc
+      | true =>
+        simp only [isScalar0, beq_iff_eq, annRank, Option.map_eq_some_iff] at hc
+        obtain ⟨sh, hsh, hlen⟩ := hc
+        simp only [ofList, eval, List.singleton_append, List.mem_cons] at ht
+        rcases ht with rfl | ht
+        · refine ⟨hsc.2 rfl, ?_⟩
+          rw [(hsc.1.2 sh hsh).1, hlen]
+        · exact ih (fun c' hc' => h1 c' (List.mem_cons_of_mem _ hc'))
+            (fun c' hc' => h2 c' (List.mem_cons_of_mem _ hc')) t ht
+    | _ => simp [isScalar0] at hc
+
 theorem mk_pw (L : Laws I WT) (nm att : String) (ann : Ann) (args : Term) :
     MkStmt I ρ (.pw nm att) ann args (mkPw nm att ann args) := by
   intro hs
@@ -333,112 +387,181 @@ theorem mk_pw (L : Laws I WT) (nm att : String) (ann : Ann) (args : Term) :
           simp [dimOK]
     · exact mk_dflt I ρ _ _ _ hs
   · split
-    · rename_i p xs kk hpa
+    · -- one reshaped operand among rank-0 scalar constants
+      rename_i pre an2 b sT post hsplit
       split
-      · rename_i hargs
-        simp only [beq_iff_eq] at hargs
-        -- unpack pullArgs
-        unfold pullArgs at hpa
-        split at hpa
-        · simp at hpa
-        · rename_i p' x hfirst
+      · rename_i hc
+        simp only [Bool.and_eq_true, beq_iff_eq] at hc
+        obtain ⟨⟨hpb, hps⟩, hargs⟩ := hc
+        obtain ⟨hl, hpre, hpost⟩ := splitMain_spec _ _ _ _ hsplit
+        obtain ⟨y, hy⟩ := eval_proper I ρ hpb
+        obtain ⟨z, hz⟩ := eval_proper I ρ hps
+        have hsa : ∀ a ∈ args.toList, AnnotSound I ρ a := annot_toList I ρ args hs.1
+        have hmemR : Term.app .reshape an2 (.cons b (.cons sT .nil)) ∈ args.toList := by
+          rw [hl]; simp
+        have hsR := hsa _ hmemR
+        have hsb : AnnotSound I ρ b := hsR.1.1
+        have hss : AnnotSound I ρ sT := hsR.1.2.1
+        have hspre : ∀ c ∈ pre, AnnotSound I ρ c := fun c hc => hsa c (by rw [hl]; simp [hc])
+        have hspost : ∀ c ∈ post, AnnotSound I ρ c := fun c hc => hsa c (by rw [hl]; simp [hc])
+        have s0pre := eval_scalars0 I ρ pre hpre hspre
+        have s0post := eval_scalars0 I ρ post hpost hspost
+        have eR : eval I ρ (.app .reshape an2 (.cons b (.cons sT .nil))) = [I.reshape y z] := by
+          simp [eval, hy, hz, applyHead]
+        have eargs : eval I ρ args =
+            eval I ρ (ofList pre) ++ [I.reshape y z] ++ eval I ρ (ofList post) := by
+          rw [hargs, hl, eval_ofList]
+          simp only [List.flatMap_append, List.flatMap_cons, List.flatMap_nil, List.append_nil, eR]
+          rw [← eval_ofList, ← eval_ofList]
+        have enew : eval I ρ (ofList (pre ++ [b] ++ post)) =
+            eval I ρ (ofList pre) ++ [y] ++ eval I ρ (ofList post) := by
+          rw [eval_ofList]
+          simp only [List.flatMap_append, List.flatMap_cons, List.flatMap_nil, List.append_nil, hy]
+          rw [← eval_ofList, ← eval_ofList]
+        refine ⟨?_, ?_⟩
+        · simp only [eval, applyHead, eargs, enew, hz, List.append_nil]
+          rw [L.reshape_pw_sc _ _ _ y z s0pre s0post]
+          rfl
+        · simp only [AnnotSound]
+          refine ⟨⟨⟨?_, ?_⟩, hss, trivial⟩, annOK_none I _⟩
+          · rw [annot_ofList]
+            intro t ht
+            simp only [List.mem_append, List.mem_singleton] at ht
+            rcases ht with (ht | rfl) | ht
+            · exact hspre t ht
+            · exact hsb
+            · exact hspost t ht
+          · obtain ⟨pr, pd⟩ := pw_scalars_spec (I.fn nm att) _ _ y s0pre s0post
+            constructor
+            · intro d hd
+              simp only [shapeAnn] at hd
+              rw [enew]
+              cases pre with
+              | nil =>
+                simp only [List.nil_append, List.singleton_append] at hd
+                have hdt := (dtypeOf_sound_aux I ρ b).1 hsb d hd y hy
+                simp [ofList, eval, applyHead, pw, hdt]
+              | cons c0 cr =>
+                simp only [List.cons_append] at hd
+                obtain ⟨t0, ht0⟩ := eval_proper I ρ (dtypeOf_some_proper hd)
+                have hdt := (dtypeOf_sound_aux I ρ c0).1 (hspre c0 (List.mem_cons_self ..)) d hd t0 ht0
+                simp [ofList, eval, ht0, applyHead, pw, hdt]
+            · intro sh hsh
+              simp only [shapeAnn] at hsh
+              obtain ⟨r1, d1⟩ := shapeOf_sound I ρ b hsb sh hsh y hy
+              rw [enew]
+              refine ⟨by simp only [applyHead]; rw [pr, r1], ?_⟩
+              intro k hk
+              simp only [applyHead]
+              rw [pd]; exact d1 k hk
+      · exact mk_dflt I ρ _ _ _ hs
+    · split
+      · rename_i p xs kk hpa
+        split
+        · rename_i hargs
+          simp only [beq_iff_eq] at hargs
+          -- unpack pullArgs
+          unfold pullArgs at hpa
           split at hpa
           · simp at hpa
-          · rename_i hvalid
-            simp only [Bool.not_eq_true, Bool.not_eq_false'] at hvalid
-            have hsa : ∀ a ∈ args.toList, AnnotSound I ρ a := annot_toList I ρ args hs.1
-            obtain ⟨an0, hmem⟩ := firstT_mem _ _ _ hfirst
-            have hsx : AnnotSound I ρ x := (hsa _ hmem).1.1
-            have key : ∃ ts, eval I ρ (ofList xs) = ts ∧ p = p' ∧
-                eval I ρ (ofList args.toList) = ts.map (transpose p') ∧
-                (∀ y ∈ xs, AnnotSound I ρ y) ∧
-                ∃ k, (∀ t ∈ ts, PullOK k t) ∧ (∃ t ∈ ts, t.rank = k) ∧ (∀ k', kk = some k' → k' = k) := by
-              split at hpa
-              · -- unary
-                rename_i a0 hl
-                simp only [Option.map_eq_some_iff, Prod.mk.injEq] at hpa
-                obtain ⟨xs', hall, rfl, rfl, rfl⟩ := hpa
-                obtain ⟨ts, h1, h2, h3, _, h5⟩ := pullAll_sem I ρ p' Option.none _ _ hall hsa
-                obtain ⟨t, ht, hy⟩ := h5 an0 x hmem
-                have hlen : ts = [t] := by
-                  have e : args.toList = [a0] := hl
-                  rw [e] at h2 hmem
-                  simp only [List.mem_singleton] at hmem
-                  subst hmem
-                  simp [ofList, eval, hy, applyHead] at h2
-                  cases ts with
-                  | nil => simp at h2
-                  | cons t0 ts0 =>
-                    cases ts0 with
-                    | nil => simp at ht; subst ht; rfl
-                    | cons _ _ => simp at h2
-                subst hlen
-                refine ⟨[t], h1, rfl, h2, h3, t.rank, ?_, ⟨t, by simp, rfl⟩, ?_⟩
-                · intro t' ht'; simp at ht'; subst ht'; exact Or.inl rfl
-                · intro k' hk'
-                  exact (rankOf_sound I ρ x hsx k' hk' t hy).symm
-              · -- n-ary
+          · rename_i p' x hfirst
+            split at hpa
+            · simp at hpa
+            · rename_i hvalid
+              simp only [Bool.not_eq_true, Bool.not_eq_false'] at hvalid
+              have hsa : ∀ a ∈ args.toList, AnnotSound I ρ a := annot_toList I ρ args hs.1
+              obtain ⟨an0, hmem⟩ := firstT_mem _ _ _ hfirst
+              have hsx : AnnotSound I ρ x := (hsa _ hmem).1.1
+              have key : ∃ ts, eval I ρ (ofList xs) = ts ∧ p = p' ∧
+                  eval I ρ (ofList args.toList) = ts.map (transpose p') ∧
+                  (∀ y ∈ xs, AnnotSound I ρ y) ∧
+                  ∃ k, (∀ t ∈ ts, PullOK k t) ∧ (∃ t ∈ ts, t.rank = k) ∧ (∀ k', kk = some k' → k' = k) := by
                 split at hpa
-                · simp at hpa
-                · rename_i k hk
+                · -- unary
+                  rename_i a0 hl
                   simp only [Option.map_eq_some_iff, Prod.mk.injEq] at hpa
                   obtain ⟨xs', hall, rfl, rfl, rfl⟩ := hpa
-                  obtain ⟨ts, h1, h2, h3, h4, h5⟩ := pullAll_sem I ρ p' (some k) _ _ hall hsa
+                  obtain ⟨ts, h1, h2, h3, _, h5⟩ := pullAll_sem I ρ p' Option.none _ _ hall hsa
                   obtain ⟨t, ht, hy⟩ := h5 an0 x hmem
-                  have hr := rankOf_sound I ρ x hsx k hk t hy
-                  exact ⟨ts, h1, rfl, h2, h3, k, h4 k rfl, ⟨t, ht, hr⟩, by intro k' hk'; cases hk'; rfl⟩
-            obtain ⟨ts, h1, hpp, h2, h3, k, hok, hex, hkk⟩ := key
-            subst hpp
-            have hpv : validPerm p = true := hvalid
-            have hrank : maxRank ts = k := maxRank_eq ts k hok hex
-            refine ⟨?_, ?_⟩
-            · have e : eval I ρ args = ts.map (transpose p) := by rw [hargs]; exact h2
-              simp only [eval, applyHead, e, h1, List.append_nil]
-              rw [pw_transpose (I.fn nm att) p hpv ts k hok hex]
-            · simp only [AnnotSound]
-              refine ⟨⟨⟨(annot_ofList I ρ xs).2 h3, ?_⟩, trivial⟩, annOK_none I _⟩
-              -- the derived annotation of the new inner node is true
-              constructor
-              · intro d hd
-                simp only [derivedAnn] at hd
-                cases xs with
-                | nil => simp at hd
-                | cons x0 xr =>
-                  simp only at hd
-                  have hsx0 : AnnotSound I ρ x0 := h3 x0 (List.mem_cons_self ..)
-                  obtain ⟨t0, ht0⟩ := eval_proper I ρ (dtypeOf_some_proper hd)
-                  have hdt := (dtypeOf_sound_aux I ρ x0).1 hsx0 d hd t0 ht0
-                  simp [ofList, eval, ht0, applyHead, pw, hdt]
-              · intro sh hsh
-                simp only [derivedAnn, Option.map_eq_some_iff] at hsh
-                obtain ⟨n, hn, rfl⟩ := hsh
-                have := hkk n hn
-                subst this
-                refine ⟨by simp [applyHead, pw, h1, hrank], ?_⟩
-                intro k' hk'
-                simp [dimOK]
+                  have hlen : ts = [t] := by
+                    have e : args.toList = [a0] := hl
+                    rw [e] at h2 hmem
+                    simp only [List.mem_singleton] at hmem
+                    subst hmem
+                    simp [ofList, eval, hy, applyHead] at h2
+                    cases ts with
+                    | nil => simp at h2
+                    | cons t0 ts0 =>
+                      cases ts0 with
+                      | nil => simp at ht; subst ht; rfl
+                      | cons _ _ => simp at h2
+                  subst hlen
+                  refine ⟨[t], h1, rfl, h2, h3, t.rank, ?_, ⟨t, by simp, rfl⟩, ?_⟩
+                  · intro t' ht'; simp at ht'; subst ht'; exact Or.inl rfl
+                  · intro k' hk'
+                    exact (rankOf_sound I ρ x hsx k' hk' t hy).symm
+                · -- n-ary
+                  split at hpa
+                  · simp at hpa
+                  · rename_i k hk
+                    simp only [Option.map_eq_some_iff, Prod.mk.injEq] at hpa
+                    obtain ⟨xs', hall, rfl, rfl, rfl⟩ := hpa
+                    obtain ⟨ts, h1, h2, h3, h4, h5⟩ := pullAll_sem I ρ p' (some k) _ _ hall hsa
+                    obtain ⟨t, ht, hy⟩ := h5 an0 x hmem
+                    have hr := rankOf_sound I ρ x hsx k hk t hy
+                    exact ⟨ts, h1, rfl, h2, h3, k, h4 k rfl, ⟨t, ht, hr⟩, by intro k' hk'; cases hk'; rfl⟩
+              obtain ⟨ts, h1, hpp, h2, h3, k, hok, hex, hkk⟩ := key
+              subst hpp
+              have hpv : validPerm p = true := hvalid
+              have hrank : maxRank ts = k := maxRank_eq ts k hok hex
+              refine ⟨?_, ?_⟩
+              · have e : eval I ρ args = ts.map (transpose p) := by rw [hargs]; exact h2
+                simp only [eval, applyHead, e, h1, List.append_nil]
+                rw [pw_transpose (I.fn nm att) p hpv ts k hok hex]
+              · simp only [AnnotSound]
+                refine ⟨⟨⟨(annot_ofList I ρ xs).2 h3, ?_⟩, trivial⟩, annOK_none I _⟩
+                -- the derived annotation of the new inner node is true
+                constructor
+                · intro d hd
+                  simp only [derivedAnn] at hd
+                  cases xs with
+                  | nil => simp at hd
+                  | cons x0 xr =>
+                    simp only at hd
+                    have hsx0 : AnnotSound I ρ x0 := h3 x0 (List.mem_cons_self ..)
+                    obtain ⟨t0, ht0⟩ := eval_proper I ρ (dtypeOf_some_proper hd)
+                    have hdt := (dtypeOf_sound_aux I ρ x0).1 hsx0 d hd t0 ht0
+                    simp [ofList, eval, ht0, applyHead, pw, hdt]
+                · intro sh hsh
+                  simp only [derivedAnn, Option.map_eq_some_iff] at hsh
+                  obtain ⟨n, hn, rfl⟩ := hsh
+                  have := hkk n hn
+                  subst this
+                  refine ⟨by simp [applyHead, pw, h1, hrank], ?_⟩
+                  intro k' hk'
+                  simp [dimOK]
+        · exact mk_dflt I ρ _ _ _ hs
+      · exact mk_dflt I ρ _ _ _ hs
+
+  theorem mk_reduce (L : Laws I WT) (nm : String) (axes : List Nat) (ann : Ann) (args : Term) :
+      MkStmt I ρ (.reduce nm axes) ann args (mkReduce nm axes ann args) := by
+    intro hs
+    unfold mkReduce
+    split
+    · rename_i p an2 a
+      split
+      · rename_i hc
+        simp only [Bool.and_eq_true, beq_iff_eq, List.all_eq_true, decide_eq_true_eq] at hc
+        obtain ⟨⟨⟨hp, hv⟩, hr⟩, hax⟩ := hc
+        obtain ⟨t, ht⟩ := eval_proper I ρ hp
+        have hsa : AnnotSound I ρ a := hs.1.1.1.1
+        have hrk := rankOf_sound I ρ a hsa _ hr t ht
+        refine ⟨?_, ?_⟩
+        · simp [eval, ht, applyHead, L.reduce_transpose nm axes p t hv hrk hax]
+        · simp only [AnnotSound]
+          exact ⟨⟨⟨⟨hsa, trivial⟩, annOK_none I _⟩, trivial⟩, annOK_none I _⟩
       · exact mk_dflt I ρ _ _ _ hs
     · exact mk_dflt I ρ _ _ _ hs
-
-theorem mk_reduce (L : Laws I WT) (nm : String) (axes : List Nat) (ann : Ann) (args : Term) :
-    MkStmt I ρ (.reduce nm axes) ann args (mkReduce nm axes ann args) := by
-  intro hs
-  unfold mkReduce
-  split
-  · rename_i p an2 a
-    split
-    · rename_i hc
-      simp only [Bool.and_eq_true, beq_iff_eq, List.all_eq_true, decide_eq_true_eq] at hc
-      obtain ⟨⟨⟨hp, hv⟩, hr⟩, hax⟩ := hc
-      obtain ⟨t, ht⟩ := eval_proper I ρ hp
-      have hsa : AnnotSound I ρ a := hs.1.1.1.1
-      have hrk := rankOf_sound I ρ a hsa _ hr t ht
-      refine ⟨?_, ?_⟩
-      · simp [eval, ht, applyHead, L.reduce_transpose nm axes p t hv hrk hax]
-      · simp only [AnnotSound]
-        exact ⟨⟨⟨⟨hsa, trivial⟩, annOK_none I _⟩, trivial⟩, annOK_none I _⟩
-    · exact mk_dflt I ρ _ _ _ hs
-  · exact mk_dflt I ρ _ _ _ hs
 
 theorem reshapeId_sound (L : Laws I WT) (ann : Ann) (a sT : Term) (x z : Tensor α)
     (hx : eval I ρ a = [x]) (hz : eval I ρ sT = [z]) (hsa : AnnotSound I ρ a)
